@@ -192,6 +192,9 @@ def run(tier, seed):
                 h = Harness(ck, 'c20_base%d_%s' % (base, str(off).replace('-', 'm')), s2); hs.append(h)
                 batch.add(h, 170, only=['base_window_ok'],
                           bounds='real digit strings, base %d, n in %d..%d (boolean selectors, bounded exhaustive)' % (base, off, off + 511))
+        tsrc = open(os.path.join(ROOT, 'harness', 'c20_text.py')).read()
+        h = Harness(ck, 'c20_text', tsrc); hs.append(h)
+        batch.add(h, 170, only=['text_ok'], bounds='6 base-conversion functions x 32 texts (signs, 0x / 0b / 0o prefixes, blanks, underscores, decimals, digits of other bases and scripts, 11 digits, valid boundary strings): #NUM! exactly outside the domain')
         batch.run()
     finally:
         for h in hs:
